@@ -154,7 +154,8 @@ CHECKS = {
              'through the Path and open-file routes) and off (syntax error iff a property is present; otherwise identical content and '
              'renderings), rendering followed through three flips of the database flag at database, table and column level, and round '
              'trip with the flag on. Theorems: with the flag off the renderings do not depend on the stored properties '
-             '(column_props_hidden, table_props_hidden, sql_column_ignores_props, ...).',
+             '(column_props_hidden, table_props_hidden, column_props_shown, sql_column_ignores_props); for ANY text parsed with the '
+             'option off no table or column blueprint carries a property (parseDoc_no_props_when_off).',
         note=TB,
         technique='Lean parser/renderer models + gate theorems + correspondence under both option values + flag-flip oracle'),
     'C16': dict(
